@@ -1,7 +1,7 @@
 //! C11 — the command-byte table is total, exact and invertible.
 
 use crate::props::c04;
-use crate::refcbor;
+use crate::refcbor::{self, Value};
 use crate::reqmodel::*;
 use crate::run::{idx, CaseResult, Ctx, Fail, Gen, Obs};
 use crate::util::{hex, Src};
@@ -32,6 +32,31 @@ fn payload(kind: usize, src: &mut Src) -> Vec<u8> {
             b
         }
         7 => vec![0xFF, 0xFF, 0x1F, 0x00],
+        10 => {
+            // a credential-management parameter map with one structural change: a (required or
+            // optional) member removed at some level, a value of another type, or the empty map
+            let mut v = gen_cm(src, &mut info);
+            match src.below(4) {
+                0 => Value::Map(vec![]),
+                1 | 2 => {
+                    let paths = crate::mutate::walk(&v);
+                    let p = paths[src.below(paths.len())].clone();
+                    if !p.is_empty() {
+                        crate::mutate::remove(&mut v, &p);
+                    }
+                    v
+                }
+                _ => {
+                    let paths = crate::mutate::walk(&v);
+                    let p = paths[src.below(paths.len())].clone();
+                    if let Some(n) = crate::mutate::get_mut(&mut v, &p) {
+                        *n = crate::mutate::palette(src.below(7));
+                    }
+                    v
+                }
+            }
+            .pipe_encode()
+        }
         9 => {
             // trailing data up to and beyond the maximum message size (total 7609 / 7610 / far more)
             let n = *src.pick(&[7607usize, 7608, 7609, 7610, 9000, 20_000, 70_000]);
@@ -44,7 +69,16 @@ fn payload(kind: usize, src: &mut Src) -> Vec<u8> {
         }
     }
 }
-const PAYLOAD_KINDS: usize = 10;
+const PAYLOAD_KINDS: usize = 11;
+
+trait PipeEncode {
+    fn pipe_encode(self) -> Vec<u8>;
+}
+impl PipeEncode for Value {
+    fn pipe_encode(self) -> Vec<u8> {
+        refcbor::encode_canonical(&self)
+    }
+}
 
 /// words: [byte (raw), payload kind, payload values...]
 fn g_byte(src: &mut Src, obs: &mut Obs) -> CaseResult {
@@ -192,7 +226,7 @@ pub fn gens() -> Vec<Gen> {
     vec![G_BYTE, G_TABLE, G_CONCRETE]
 }
 
-pub const RULE: &str = "Exhaustive over all 256 first bytes x 10 payload classes (very long trailing data up to 70 000 bytes; empty; the valid payload of each of the five parameter-bearing commands; truncated CBOR; malformed CBOR; random bytes), with proptest supplying the payload values; plus one whole-table case checking pairwise distinctness of the operations of all recognised bytes. Oracle: the specification table (assigned = 01,02,04,06,07,08,09,0A,0B,0C,0D,40,41; vendor = 0x42..0x7F): Operation::try_from is Ok exactly on assigned+vendor and converts back to the same byte; VendorOperation::try_from accepts exactly 0x40..0x7F; parameter-less commands decode from their byte alone whatever follows; 0x41||p and 0x0A||p decode identically; 09/0D/40 and every unassigned byte give InvalidCommand whatever follows. Every case is non-trivial (each byte/payload pair is a distinct table probe).";
+pub const RULE: &str = "Exhaustive over all 256 first bytes x 11 payload classes (a credential-management parameter map with a member removed at some level / a value of another type / empty; very long trailing data up to 70 000 bytes; empty; the valid payload of each of the five parameter-bearing commands; truncated CBOR; malformed CBOR; random bytes), with proptest supplying the payload values; plus one whole-table case checking pairwise distinctness of the operations of all recognised bytes. Oracle: the specification table (assigned = 01,02,04,06,07,08,09,0A,0B,0C,0D,40,41; vendor = 0x42..0x7F): Operation::try_from is Ok exactly on assigned+vendor and converts back to the same byte; VendorOperation::try_from accepts exactly 0x40..0x7F; parameter-less commands decode from their byte alone whatever follows; 0x41||p and 0x0A||p decode identically; 09/0D/40 and every unassigned byte give InvalidCommand whatever follows. Every case is non-trivial (each byte/payload pair is a distinct table probe).";
 pub const ASSUMPTIONS: &[&str] = &["the assigned-code table is transcribed from CTAP 2.1 section 6 and the FIDO prototype codes 0x40/0x41"];
 
 pub fn run(ctx: &mut Ctx) {
@@ -207,8 +241,9 @@ pub fn run(ctx: &mut Ctx) {
     // the 0x41 alias with every credential-management sub-command and every presence subset
     for b in [0x41u32, 0x0A] {
         ctx.random(&G_BYTE, &[b, idx(4, PAYLOAD_KINDS)], ctx.t(400, 10_000), 700);
+        ctx.random(&G_BYTE, &[b, idx(10, PAYLOAD_KINDS)], ctx.t(1500, 30_000), 700);
     }
     ctx.enumerate(&G_TABLE, std::iter::once(vec![]));
-    ctx.exhaustive.push("all 256 command bytes x 10 payload classes; all pairs of recognised bytes".into());
+    ctx.exhaustive.push("all 256 command bytes x 11 payload classes; all pairs of recognised bytes".into());
     ctx.require(&["byte-class:assigned", "byte-class:vendor", "byte-class:unassigned", "table-injectivity"]);
 }
